@@ -12,6 +12,8 @@ use super::report_sections::qa::{
 pub fn generate_qa_report(
     qa_items: HashMap<QualityAssurance, Vec<(String, BTreeSet<LineNumber>)>>,
 ) -> String {
+    #[cfg(solstat_verif)]
+    let qa_items = crate::verif_shim::SeamMap::at("qa_report", qa_items);
     let mut qa_report = String::from("");
 
     //Add optimization report overview
